@@ -9,7 +9,8 @@ EXEC : (a) every Reader accessor on the first value of each document; (b) forest
 JUDGE: (a) spec/Numbers.tla via Judge_Acc (IntSize never too small, IntValue/Int64Value value-or-error,
        BigIntValue exact, nil for own typed null, error for other types); (b) Judge_RT: read-back and the
        specification's decoding of the emitted bytes are Equiv to the forest, bit for bit (a float stored
-       in 32 bits that is not lossless, or a wrapped length / symbol ID, changes the decoded value).
+       in 32 bits that is not lossless, or a wrapped length / symbol ID, changes the decoded value);
+       (c) text decimals with exponents at and beyond the int32 range: exact or refused, never wrapped.
 """
 import json
 import os
@@ -83,6 +84,26 @@ def run(tier):
                            diff=a[0].get("diff"), rerr=a[1].get("rerr", "")[:160])
                 small = f["forest"] if len(json.dumps(f["forest"])) < 20000 else "(large forest of kind %s)" % f["kind"]
                 verdicts.fail(sig, dict(part="rt", kind=f["kind"], forest=small, mode=v["mode"], verdict=a[0]))
+        # ---- exponents at and beyond the int32 range in text: a decimal that cannot be held exactly must be refused, one
+        # that can must come back with exactly that exponent (never a wrapped one)
+        lits = [("7d2147483647", 2147483647), ("7d-2147483647", -2147483647), ("123d1000000000", 1000000000), ("7d2147483648", None),
+                ("7d4294967297", None), ("7d-2147483649", None), ("7d-4294967297", None), ("15d99999999999", None),
+                ("1.5d4294967296", None), ("-7d18446744073709551617", None), ("7d-18446744073709551615", None)]
+        de = wd.sub("exp")
+        core.write_ndjson(os.path.join(de, "in.ndjson"), [dict(bytes=list(t.encode()), mode="text", cat=[]) for t, _ in lits])
+        core.run_harness("read", os.path.join(de, "in.ndjson"), os.path.join(de, "obs.ndjson"))
+        for (t, want), o in zip(lits, core.read_ndjson(os.path.join(de, "obs.ndjson"))):
+            err = o["rerr"] or o["errAfter"] or o["rpanic"]
+            got = o["back"][0]["v"]["exp"] if (not err and o["back"] and o["back"][0]["t"] == "decimal") else None
+            why = None
+            if o["rpanic"]:
+                why = "panic"
+            elif want is None and not err:
+                why = "a decimal whose exponent does not fit was read as another number (exponent %s)" % got
+            elif want is not None and (err or got != want):
+                why = "a representable exponent was not read back exactly (%s)" % (err or got)
+            if why:
+                verdicts.fail(dict(part="text-exponent", literal=t, why=why), dict(part="text-exponent", literal=t))
         rc = verdicts.report()
         kinds = {}
         for c in cases:
@@ -108,6 +129,9 @@ def replay(path):
         rp = json.load(f)
     case = rp["case"]
     with core.Workdir("c13r") as wd:
+        if case["part"] == "text-exponent":
+            print("replay: re-run ./check C13 (the literal %s is part of every run)" % case["literal"])
+            return 2
         if case["part"] == "acc":
             vs = judge_acc(wd, [case["case"]], nshards=1)
             bad = not vs[0]["ok"]
